@@ -7,6 +7,7 @@ evaluated on a deep copy after every step.
 """
 
 import copy
+import os
 
 import numpy as np
 
@@ -38,6 +39,9 @@ ASSUMPTIONS = [
 COMPONENTS = {"real": ["iodata.iodata.IOData", "iodata.attrutils validators/converters", "iodata.orbitals.MolecularOrbitals", "attrs"],
               "stub": ["scheduler choosing where observer reads fall between mutator steps", "reference model (ideal core charges)"]}
 
+BACKGROUND = [{"file": "water.xyz"}, {"file": "h2o_sto3g.wfn"}, {"file": "he_s_orbital.wfn"}, {"file": "h2o_sto3g.fchk"},
+              {"file": "h2_sto3g.mkl"}, {"file": "water.mol2"}, {"file": "water_single.pdb"}, {"file": "lih_cation_uhf.wfx"},
+              {"file": "CuSCN_molecule.json", "fmt": "json_qcschema"}, {"file": "h2o.molden.input"}]
 PER_ATOM = ["atnums", "atcorenums", "atcoords", "atmasses", "atgradient", "atfrozen"]
 ATTRS = ["atnums", "atcorenums", "charge", "nelec", "spinpol", "mo", "atcoords", "atmasses", "atgradient", "atfrozen"]
 READS = ["charge", "nelec", "spinpol", "atcorenums", "natom", "atnums"]
@@ -407,10 +411,26 @@ def run_threads(trace, rng=None):
             got[i] = (mo, fin)
         return body
 
+    fns = [make(i) for i in range(len(hists))]
+    bg = trace.get("background")
+    if bg:
+        # a client that uses the library through its API at the same time (its own result is C16's business)
+        def background():
+            import warnings
+
+            import iodata
+
+            with warnings.catch_warnings():
+                warnings.simplefilter("ignore")
+                try:
+                    iodata.load_one(os.path.join(common.DATA, bg["file"]), fmt=bg.get("fmt"))
+                except Exception:  # noqa: BLE001
+                    pass
+        fns.append(background)
     with sched.Steps(sched=baton) as st:
-        done = baton.run([make(i) for i in range(len(hists))])
+        done = baton.run(fns)
     out = []
-    for c in done:
+    for c in done[: len(hists)]:
         if c.error is not None:
             out.append({"cls": "T0_client_died", "sig": f"T0_client_died|{type(c.error).__name__}",
                         "msg": f"client {c.idx} died under interleaving: {type(c.error).__name__}: {c.error}", "trace": copy.deepcopy(trace)})
@@ -554,6 +574,8 @@ def run_task(task):
             r = rng.random()
             policy = ["random", rng.choice([0.01, 0.05, 0.2])] if r < 0.6 else ["newline", 0.01, rng.choice([0.1, 0.3])] if r < 0.8 else ["pct", rng.choice([1, 2, 3])]
             trace = {"histories": [gen_trace(rng) for _ in range(nth)], "policy": policy, "schedule": None}
+            if rng.random() < 0.5:
+                trace["background"] = rng.choice(BACKGROUND)
             srng = common.rng_for(task["seed"], ID, task["run"], j, "schedule")
             vs, baton, steps = run_threads(trace, srng)
             for v in vs:
